@@ -243,6 +243,9 @@ impl<'a> Context<'a> {
         }
       }
       let Some(range) = diagnostic.range.as_ref() else {
+        // A diagnostic without a range can only be suppressed by a file-level
+        // directive, which has been checked above.
+        filtered.push(diagnostic);
         continue;
       };
 
